@@ -1006,8 +1006,9 @@ pub fn timeout(rng: &mut Rng) -> Program {
             } else if g.rng.chance(1, 25) {
                 // asks for its own stop, then outlives (or not) the limit: the request stands either way
                 vec![PStep::CtxStop, PStep::Sleep(d)]
-            } else if g.rng.chance(1, 20) {
-                // arms a timer, then outlives (or not) the limit: the timer stands either way
+            } else if g.prog.actors[0].tick_work == 0 && g.rng.chance(1, 20) {
+                // arms a timer, then outlives (or not) the limit: the timer stands either way (not on actors whose tick
+                // handlers are slow: more timers would saturate them)
                 let p = *g.rng.pick(&[5u64, 8, 13]);
                 vec![g.rng.pick(&[PStep::Interval(p), PStep::IntervalWith(p), PStep::DelayedSend(p), PStep::DelayedExec(p)]).clone(), PStep::Sleep(d)]
             } else {
